@@ -164,3 +164,20 @@ def unhex(s):
     if s == "-inf":
         return float("-inf")
     return float.fromhex(s)
+
+
+def replay_by_rerun(run, ctx, path):
+    """generic replay: re-run the (deterministic) exploration of the tier that produced the artefact and
+    report whether the same failing key is still produced"""
+    d = json.load(open(path))
+    key = d.get("key")
+    import io, contextlib
+    buf = io.StringIO()
+    with contextlib.redirect_stdout(buf):
+        run(ctx)
+    still = key in ctx._vkeys or any(fnmatch.fnmatchcase(key, k) for k in ctx.known_hit)
+    print("replay %s: key %s %s" % (path, key, "still fails: " + d.get("what", "")[:300] if still else "no longer fails"))
+    if key in ctx._vkeys:
+        print("VIOLATION property=%s replay=%s" % (ctx.pid, path))
+        return 1
+    return 0
